@@ -219,6 +219,10 @@ Sat(p, W, N, S) ==
       [] p.op = "sinceT"  -> [t \in T |-> \E j \in Win(N, t - p.b, t - p.a) : R[j] /\ \A i \in (j+1)..t : L[i]]
       [] p.op = "untilT"  -> [t \in T |-> \E j \in Win(N, t + p.a, t + p.b) : R[j] /\ \A i \in t..(j-1) : L[i]]
 
+\* every predicate compares one variable with a (possibly negated) constant
+VarConstPreds(p) == \A q \in SubF(p) : q.op = "pred" =>
+   (q.l.op = "var" /\ (q.r.op = "const" \/ (q.r.op = "neg" /\ q.r.l.op = "const")))
+
 \* does any predicate operand evaluate to Undef on W ?
 RECURSIVE SatUndef(_, _, _, _)
 SatUndef(p, W, N, S) ==
